@@ -167,4 +167,44 @@ theorem name_with_only_backbone_rejected (kernel : Kernel) (mob tar : Db) (a : A
   unfold superpose selection
   simp [h1, h2, bind, Except.bind, throw, throwThe, MonadExceptOf.throw]
 
+/-! ### non-vacuity: a concrete run satisfying every hypothesis above at once
+
+  target: three backbone atoms of chain A, not collinear; mobile: the target translated by (1, 2, 3); both file-backed;
+  `only_backbone`, export on; the kernel `idKernel` answers only on coinciding centred sets (with the identity) and is optimal. -/
+
+def exAtom (serial : Int) (name : String) (resSeq : Int) (x y z : Rat) : Atom :=
+  { serial := serial, name := name.toList, altLoc := [], resName := "ALA".toList, chainID := "A".toList, resSeq := resSeq, iCode := [],
+    x := x, y := y, z := z, occ := 1, temp := 0, element := "C".toList, model := 0 }
+
+def exTar : Db := { rows := [exAtom 1 "N" 1 0 0 0, exAtom 2 "CA" 1 (3/2) 0 0, exAtom 3 "C" 1 0 2 (1/2), exAtom 4 "CB" 1 5 5 5],
+                    pdbfile := some "in/target.pdb".toList }
+def exShift : Motion Rat := { R := Mat3.one, t := ⟨1, 2, 3⟩ }
+def exMob : Db := { rows := exTar.rows.map (fun a => Spec.C13.moveTo a (exShift.apply (Spec.C13.pos a))), pdbfile := some "in/model_b.pdb".toList }
+def exArgs : Args := { onlyBackbone := true, doExport := true, nameGiven := false, sel := fun _ => true }
+def exSel : Atom → Bool := fun x => true && decide (x.name ∈ backboneNames)
+
+/-- the run succeeds, the mobile structure lands on the target, one file is written (note the name: `rstrip('.pdb')` strips
+    the trailing `b` of `model_b` as well) -/
+example : (match superpose Proofs.SupDb.idKernel exMob exTar exArgs with
+    | .ok out => decide (out.mobile = exTar.rows ∧ out.target = exTar.rows ∧
+        out.files.map (·.1) = ["model__superposed_on_target.pdb".toList])
+    | .error _ => false) = true := by decide +kernel
+example : KernelOptimal Proofs.SupDb.idKernel := Proofs.SupDb.idKernel_optimal
+example : exShift.IsRigid := Proofs.M3.rot_one
+example : DisplacedCopy exShift exTar.rows exMob.rows := rfl
+example : Proofs.SupDb.SelIgnoresPosition exArgs.sel := fun _ _ => rfl
+example : selection exArgs = .ok exSel := rfl
+example : Proofs.SupBack.NonCollinear ((exTar.rows.filter exSel).map pos) :=
+  ⟨⟨0, 0, 0⟩, by decide +kernel, ⟨3/2, 0, 0⟩, by decide +kernel, ⟨0, 2, 1/2⟩, by decide +kernel, by decide +kernel⟩
+example : UniqueIdent exSel exMob.rows := by decide +kernel
+example : (exMob.rows.filter exSel).map atomId = (exTar.rows.filter exSel).map atomId := by decide +kernel
+
+/-- intersection route: the mobile structure lacks the atom `N`; the re-exported, re-read selections keep their identities -/
+def exMob2 : Db := { rows := exMob.rows.drop 1, pdbfile := none }
+example : (exMob2.rows.filter exSel).map atomId ≠ (exTar.rows.filter exSel).map atomId := by decide +kernel
+example : (match reexportSel exSel exMob2.rows, reexportSel exSel exTar.rows with
+    | .ok u₁, .ok u₂ => decide (u₁.map ident = (exMob2.rows.filter exSel).map ident ∧ u₂.map ident = (exTar.rows.filter exSel).map ident ∧
+        (shared exSel exMob2.rows exTar.rows).length = 2)
+    | _, _ => false) = true := by decide +kernel
+
 end Props.C13
